@@ -784,7 +784,13 @@ fn check(host: HostKind, rf: &Ref, hist: &Hist, g: &Gauges, h: &Host) -> Vec<Fou
     let mut extra = vec![];
     if host == HostKind::Bridge {
         let (never, once, many) = g.registry;
-        if never > 0 {
+        if never > hist.notes {
+            over(
+                "registry/used-up-entry-kept",
+                format!("{never} `Never` entries in the registry but only {} notifications were ever sent: entries of answered requests are still there", hist.notes),
+                false,
+            );
+        } else if never > 0 {
             over(
                 "registry/never-entry",
                 format!("{never} `Never` entries in the registry for {} notifications sent so far; a notification can never be resolved", hist.notes),
